@@ -177,6 +177,31 @@ CHECKS["C06"] = (
     LEVEL_NOTE_COMMON + "urllib.parse / html.escape are modelled for the ASCII fragment and validated differentially every run; non-ASCII and exotic IPv6 literals are Unmodelled (counted, ~3%).",
     "DESIGN.md §6 C06")
 
+CHECKS["C13"] = (
+    "Rocq proof (file store refines a map over all op sequences; ImpExp codec / dump idempotence; exported-field coverage over parameter tables REGENERATED from /repo/src) + vm_compute correspondence + restore-after-every-prefix oracle on real providers and RPs",
+    "Theorems (Props/C13.v, closed): every sequence of set/get/del/keys/items/in/len/clear/re-open on the file store over arbitrary "
+    "byte-string keys answers like a plain map and a new instance observes exactly that map (C13_filestore_refines, unguarded after fixes "
+    "326d062/c8dc82a/39b33d9); key codec round trip; ImpExp attribute codec (partial + refuted witness for 'BYTES:' strings); "
+    "dump . load . dump = dump; grant with issued tokens round-trips; every state field the session logic reads is in the regenerated "
+    "`parameter` table of its class (C13_fields_covered: deleting 'used', 'jti_db', 'cdb', '_map' breaks the proof). Oracle: real "
+    "provider histories (26-step fixed + random) dumped and restored into a fresh provider after EVERY prefix under 5 key-pinning "
+    "configurations, remaining operations compared; RP likewise; two recorded findings replayed deterministically.",
+    LEVEL_NOTE_COMMON + "Partial: there is no C13_equivalent theorem over the session model - equivalence after restore is decided by the "
+    "all-prefix restore oracle; mtimes, file locks, KeyJar not modelled.",
+    "DESIGN.md §6 C13")
+CHECKS["C20"] = (
+    "Rocq proof (soundness of an ownership checker for aliasing: a checked flow never writes a pre-existing object) + alias probes evaluated in coqc + deep snapshot diff and history-independence oracle on long-lived providers / RP",
+    "Theorems (Props/C20.v, closed): C20_no_static_write (for every instruction list, heap and execution a flow accepted by the checker "
+    "leaves every pre-existing object unchanged); the 10 request-handling flows transcribed from the CURRENT code are accepted "
+    "(C20_current_flows_checked) and the 8 pre-fix variants are rejected at the predicted instruction (Examples). Tie: alias probes on "
+    "the real functions with sentinel objects compared with the checker's typing; oracle: deep canonical snapshot of all Message schema "
+    "tables, UPPERCASE module constants, endpoint attributes/kwargs, authz/claims/scopes configuration and client records (minus "
+    "auth_method) before/after every request on long-lived OIDC and OAuth2 providers and an RP; per-client probe flows compared with a "
+    "fresh provider after every batch.",
+    LEVEL_NOTE_COMMON + "Partial: the flows are hand transcriptions (not regenerated from source); any other in-place write is caught by "
+    "the snapshot diff (a check, not a theorem); no noninterference theorem over the session model.",
+    "DESIGN.md §6 C20")
+
 NOT_YET = "not claimed in this snapshot: its model/theorems/driver are not built yet (DESIGN.md §9 build order); no check is registered rather than a weaker technique"
 
 
